@@ -998,7 +998,32 @@ def o_lookup_marks_used(scen, nat, msg):
     return verdict(bad, scen, "a looked-up entry is not recognised as recently used", "the looked-up entry was spared natively")
 
 
+def o_touch_marks_used(scen, nat, msg):
+    """C09: after a successful touch the entry counts as recently used and keeps its queue position.  Same
+    boundary directory as o_lookup_marks_used, with the real `raw_cache::touch` as the operation."""
+    import shutil
+    T = 1_600_000_000 * 10**9
+    bad = []
+    for profile in ("debug", "release"):
+        root = nat.sandbox()
+        try:
+            d = os.path.join(root, "w"); os.makedirs(d)
+            for name, at, mt in (("ka", T + 10**8, T + 7 * 10**8), ("kb", T + 80 * 10**9, T + 200 * 10**9)):
+                open(os.path.join(d, name), "w").write(name); _stamp(os.path.join(d, name), at, mt)
+            r = nat.run(["raw", "touch", os.path.join(d, "ka")], profile=profile)
+            st = os.stat(os.path.join(d, "ka"))
+            nat.run(["prune", d, 1], profile=profile)
+            left = sorted(os.listdir(d))
+            if "result ok" in r["out"] and (left != ["ka"] or st.st_mtime_ns != T + 7 * 10**8):
+                bad.append((profile, "after a successful touch the entry was not recognised as used or moved in the queue (left %r, mtime moved: %s)" % (left, st.st_mtime_ns != T + 7 * 10**8)))
+        finally:
+            shutil.rmtree(root, ignore_errors=True)
+    return verdict(bad, scen, "a touched entry is not recognised as recently used / is re-queued", "the touched entry was spared natively with its queue position")
+
+
 ORACLES = [
+    (r"KV-C09: (a touched entry is|after a touch the entry is) recognised as recently used|KV-C09: touch keeps the queue position|KV-C09: a touch changes neither queue position", o_touch_marks_used),
+    (r"KV-C09: a get does not change the queue position", o_lookup_marks_used),
     (r"KV-C07: read mark is atime >= mtime", o_read_mark_boundaries),
     (r"KV-C09: after a get the entry is recognised as recently used", o_lookup_marks_used),
     (r"collecting crash debris never re-modes|a published file is never re-moded", o_debris_mode),
